@@ -110,15 +110,49 @@ def _count(text, what):
     raise TranslateError("%s: unrecognised byte count `%s`" % (what, text.strip()))
 
 
+WSTMTS = [
+    # (statement after whitespace normalisation, memory steps it stands for) — `C` is the byte-order condition
+    (r"AsBytes<T> y\(x\)", ["copyTmp"]),                                     # temporary copy of the argument's bytes
+    (r"T y = \((?P<c>.*?)\) \? bytesSwapped\(x\) : x", ["copyTmp", "swapTmp"]),  # bytesSwapped = `T y = x; swapBytes(y); return y;` (checked below)
+    (r"if \((?P<c>.*?)\) swapBytes\(y\)", ["swapTmp"]),
+    (r"if \((?P<c>.*?)\) swapBytes\((?:\(T&\) ?x|const_cast<T&>\(x\))\)", ["swapArg"]),  # in place, on the caller's object
+    (r"write\((?:y\.b|&y), sizeof\((?:T|x)\)\)", ["writeTmp"]),
+    (r"write\(&x, sizeof\((?:T|x)\)\)", ["writeArg"]),
+    (r"return \*this", []),
+]
+
+
+def _writer_stmts(b, what):
+    """the body of the generic scalar writer, statement by statement: (byte-order condition, memory path).
+    The path says which object `swapBytes` and `write` touch: the temporary `y` or the caller's `x` (model: `WStmt`)."""
+    conds, path = [], []
+    stmts = [" ".join(x.split()) for x in b.split(";")]
+    stmts = [x for x in stmts if x]
+    if not stmts or stmts[-1] != "return *this":
+        raise TranslateError(what + ": body does not end in `return *this;`: " + " ".join(b.split())[:200])
+    for st in stmts:
+        for rx, steps in WSTMTS:
+            m = re.fullmatch(rx, st)
+            if m:
+                if "c" in m.groupdict():
+                    conds.append(_cond(m.group("c"), what))
+                path += steps
+                break
+        else:
+            raise TranslateError(what + ": statement not recognised: `%s`" % st[:160])
+    if len(set(conds)) != 1:
+        raise TranslateError(what + ": expected one byte-order condition, found %r" % conds)
+    if sum(1 for x in path if x.startswith("write")) != 1:
+        raise TranslateError(what + ": expected exactly one write(): %r" % path)
+    return conds[0], path
+
+
 def _writer_template(body, what):
-    """the generic `template<class T> X& operator<<(const T& x)`; returns (kind, cond)"""
+    """the generic `template<class T> X& operator<<(const T& x)`; returns (cond, memory path)"""
     m = re.search(r"template\s*<\s*class\s+T\s*>\s*\w+&\s*operator<<\s*\(\s*const\s+T&\s*x\s*\)\s*\{(.*?)\n\t\}", body, re.S)
     if not m:
         raise TranslateError(what + ": generic operator<< not found")
     b = m.group(1)
-    m1 = re.search(r"AsBytes<T>\s+y\(x\);\s*if\s*\((.*?)\)\s*swapBytes\(y\);\s*write\(y\.b,\s*sizeof\(T\)\);\s*return\s+\*this;", b, re.S)
-    if m1:
-        return _cond(m1.group(1), what)
     if re.fullmatch(r"\s*return\s+put_\(x,\s*&x\);\s*", b):
         # File / Socket since e2ca1c4: dispatch on the argument's address — Array-derived objects to the Array overload,
         # plain values to the raw path
@@ -128,14 +162,15 @@ def _writer_template(body, what):
         mp = re.search(r"template\s*<\s*class\s+T\s*>\s*%s&\s*put_\(\s*const\s+T&\s*x\s*,\s*const\s+void\*\s*\)[^{]*\{(.*?)\n\t\}" % cls, body, re.S)
         if not mp:
             raise TranslateError(what + ": put_(const T&, const void*) not found")
-        m2 = re.fullmatch(r"\s*T\s+y\s*=\s*\((.*?)\)\s*\?\s*bytesSwapped\(x\)\s*:\s*x;\s*write\(&y,\s*sizeof\(x\)\);\s*return\s+\*this;\s*", mp.group(1), re.S)
-        if m2:
-            return _cond(m2.group(1), what)
-        raise TranslateError(what + ": body of put_(const T&, const void*) not recognised: " + " ".join(mp.group(1).split())[:200])
-    if re.search(r"T\s+y\s*=\s*\((.*?)\)\s*\?\s*bytesSwapped\(x\)\s*:\s*x;\s*write\(&y,\s*sizeof\(x\)\);", b, re.S):
+        return _writer_stmts(mp.group(1), what + " [put_(const T&, const void*)]")
+    if cls_is_file_or_socket(what) and re.search(r"write\(&[xy],\s*sizeof\(x\)\);", b):
         raise TranslateError(what + ": the generic operator writes its argument raw without the Array dispatch: an object derived from Array<T> "
                              "(Stack, Queue, StreamBuffer) would be written as the memory of its handle")
-    raise TranslateError(what + ": body of the generic operator<< not recognised: " + " ".join(b.split())[:200])
+    return _writer_stmts(b, what)
+
+
+def cls_is_file_or_socket(what):
+    return what.startswith("File::") or what.startswith("Socket::")
 
 
 def _reader_template(body, what):
@@ -305,6 +340,10 @@ def translate(repo):
     if not re.fullmatch(r"\{\s*T\s+y\s*=\s*x;\s*swapBytes\(y\);\s*return\s+y;\s*\}", bsw):
         raise TranslateError("bytesSwapped: body not recognised")
 
+    L.append("/-- what the generic `operator<<(const T& x)` does to memory, statement by statement: `copyTmp` = `AsBytes<T> y(x)` / `T y = x` (also inside "
+             "`bytesSwapped`), `swapTmp` = `if (C) swapBytes(y)`, `swapArg` = `if (C) swapBytes((T&)x)` (in place, on the caller's object), "
+             "`writeTmp` = `write(y.b | &y, sizeof(T))`, `writeArg` = `write(&x, sizeof(T))` -/")
+    L.append("inductive WStmt where\n  | copyTmp | swapTmp | swapArg | writeTmp | writeArg\nderiving DecidableEq, Repr\n")
     L.append("/-- `IsArithmetic<T>::value` as reported by the compiler (defs.h; `true` where the trait does not exist yet) -/")
     L.append("def arithT : Ty → Bool\n" + "\n".join("  | .%s => %s" % (t, "true" if pr.get("arith_" + t, 1) else "false") for t in TYPES))
     L.append("/-- `IsArithmetic<String>::value` -/")
@@ -312,7 +351,9 @@ def translate(repo):
 
     # StreamBuffer
     L.append("/-! StreamBuffer (writer) -/")
-    L.append("def sbSwap (e : Endian) : Bool := %s" % _writer_template(sb, "StreamBuffer::operator<<(const T&)"))
+    c, sbpath = _writer_template(sb, "StreamBuffer::operator<<(const T&)")
+    L.append("def sbSwap (e : Endian) : Bool := %s" % c)
+    L.append("def sbPath : List WStmt := [%s]" % ", ".join("." + x for x in sbpath))
     c, n = _array_template(sb, "StreamBuffer::operator<<(const Array<T>&)")
     L.append("def sbArraySwap (e : Endian) (arith : Bool) : Bool := %s" % c)
     L.append("def sbArrayCount (len size : Nat) : Nat := %s" % n)
@@ -362,7 +403,9 @@ def translate(repo):
 
     # File
     L.append("/-! File -/")
-    L.append("def fileWSwap (e : Endian) : Bool := %s" % _writer_template(fb, "File::operator<<(const T&)"))
+    c, fpath = _writer_template(fb, "File::operator<<(const T&)")
+    L.append("def fileWSwap (e : Endian) : Bool := %s" % c)
+    L.append("def filePath : List WStmt := [%s]" % ", ".join("." + x for x in fpath))
     L.append("def fileRSwap (e : Endian) : Bool := %s" % _reader_template(fb, "File::operator>>(T&)"))
     c, n = _array_template(fb, "File::operator<<(const Array<T>&)")
     L.append("def fileArraySwap (e : Endian) (arith : Bool) : Bool := %s" % c)
@@ -383,7 +426,9 @@ def translate(repo):
 
     # Socket
     L.append("/-! Socket -/")
-    L.append("def sockWSwap (e : Endian) : Bool := %s" % _writer_template(sk, "Socket::operator<<(const T&)"))
+    c, kpath = _writer_template(sk, "Socket::operator<<(const T&)")
+    L.append("def sockWSwap (e : Endian) : Bool := %s" % c)
+    L.append("def sockPath : List WStmt := [%s]" % ", ".join("." + x for x in kpath))
     L.append("def sockRSwap (e : Endian) : Bool := %s" % _reader_template(sk, "Socket::operator>>(T&)"))
     c, n = _array_template(sk, "Socket::operator<<(const Array<T>&)")
     L.append("def sockArraySwap (e : Endian) (arith : Bool) : Bool := %s" % c)
@@ -577,6 +622,28 @@ def roundtrip_case(rng, kind, nitems, arr_max=100, p_switch=0.2):
             n = len(s.split(b"\0")[0]) if op in ("wz", "wc", "wca") else len(s)   # wb / ws / wdsb: all the bytes
             rl.append("rb %d" % n)
             total += n
+    # some items are stepped over with skip(size of the item) instead of being read (theorem read_back_with_skips): the
+    # reads after them must still return the values written; a skip is sometimes split in two, or made with a raw read
+    out = []
+    for l in rl:
+        t = l.split()
+        size = None
+        if rng.random() < 0.1:
+            if t[0] == "r":
+                size = WIDTH[t[1]]
+            elif t[0] == "rb":
+                size = int(t[1])
+            elif t[0] == "ra":
+                size = WIDTH[t[1]] * int(t[2])
+        if size is None:
+            out.append(l)
+        elif size > 1 and rng.random() < 0.3:
+            a = rng.randrange(0, size + 1)
+            out.append("skip %d" % a)
+            out.append(("skip %d" if rng.random() < 0.5 else "rb %d") % (size - a))
+        else:
+            out.append("skip %d" % size)
+    rl = out
     if kind == "sock":
         # the object's own view after zero-length and ordinary reads
         out = []
